@@ -8,6 +8,25 @@ pub type Bad = &'static str;
 pub const CUSTOM_PTS: [u64; 9] = [0, 192, 199, 200, 204, 207, 208, 242, 255];
 pub const CUSTOM_MINS: [u64; 6] = [4, 6, 8, 12, 13, 20];
 
+/// Which of the two third-party families (PROTOCOL.md §6): `custom` leaves `RtcpPacket::MAX_COUNT`
+/// at the trait's default (0x1f), `custom16` overrides it with 16.
+#[derive(Debug, Clone, Copy, PartialEq, Eq)]
+pub enum Fam {
+    Custom,
+    Custom16,
+}
+
+impl Fam {
+    /// The family a list head (`custom` / `custom16`) names.
+    pub fn of_head(head: &str) -> Option<Fam> {
+        match head {
+            "custom" => Some(Fam::Custom),
+            "custom16" => Some(Fam::Custom16),
+            _ => None,
+        }
+    }
+}
+
 #[derive(Debug, Clone, Copy, PartialEq, Eq)]
 pub enum Kind {
     App,
@@ -26,7 +45,8 @@ pub enum Kind {
     Sli,
     Rpsi,
     Pli,
-    Custom(u8, usize),
+    /// `(custom PT MIN)` / `(custom16 PT MIN)`
+    Custom(Fam, u8, usize),
 }
 
 #[derive(Debug, Clone, Copy)]
@@ -52,7 +72,10 @@ pub enum Request {
 #[derive(Debug)]
 pub enum Helper {
     WriteHeader {
+        /// the `P` of `write_header_unchecked::<P>`: `Custom<PT, MIN>` / `Custom16<PT, MIN>`
+        fam: Fam,
         pt: u8,
+        min: usize,
         padding: u8,
         count: u8,
         len: usize,
@@ -209,6 +232,8 @@ pub enum CustomCall {
     Padding(u8),
     /// `(pad_style some0)`: `get_padding()` returns `Some(0)` instead of `None` for padding 0
     PadStyleSome0,
+    /// `(count N)`, N in 0..=31: the count the writer passes to `write_header_unchecked`
+    Count(u8),
 }
 
 /// An element of `(compound ...)`.
@@ -257,6 +282,7 @@ pub enum B {
     Pb(Box<B>),
     Compound(Vec<Member>),
     Custom {
+        fam: Fam,
         pt: u8,
         min: usize,
         body: Vec<u8>,
@@ -313,9 +339,9 @@ impl B {
             }
             B::Pb(inner) => return inner.rt_kind(),
             B::Compound(_) => Kind::Compound,
-            B::Custom { pt, min, .. } => Kind::Custom(*pt, *min),
+            B::Custom { fam, pt, min, .. } => Kind::Custom(*fam, *pt, *min),
             // what it writes reads back as `(custom PT 8)`
-            B::Unit { pt } => Kind::Custom(*pt, 8),
+            B::Unit { pt } => Kind::Custom(Fam::Custom, *pt, 8),
             B::Chunk(_) | B::Item(_) | B::Fci(_) => return None,
         })
     }
@@ -468,6 +494,16 @@ fn custom_grid(pt: &Sexp, min: &Sexp) -> Result<(u8, usize), Bad> {
     Ok((pt as u8, min as usize))
 }
 
+/// `(custom PT MIN)` / `(custom16 PT MIN)`: `None` for anything else, `Err` off the grid.
+fn custom_kind(s: &Sexp) -> Option<Result<(Fam, u8, usize), Bad>> {
+    let (head, args) = s.call()?;
+    let fam = Fam::of_head(head)?;
+    if args.len() != 2 {
+        return None;
+    }
+    Some(custom_grid(&args[0], &args[1]).map(|(pt, min)| (fam, pt, min)))
+}
+
 // ---------------------------------------------------------------------------------------------
 // requests
 
@@ -493,12 +529,8 @@ pub fn kind(s: &Sexp) -> Result<Kind, Bad> {
             _ => return Err("kind"),
         }),
         Sexp::List(_) => {
-            let (head, args) = s.call().ok_or("kind")?;
-            if head != "custom" || args.len() != 2 {
-                return Err("kind");
-            }
-            let (pt, min) = custom_grid(&args[0], &args[1])?;
-            Ok(Kind::Custom(pt, min))
+            let (fam, pt, min) = custom_kind(s).ok_or("kind")??;
+            Ok(Kind::Custom(fam, pt, min))
         }
     }
 }
@@ -535,13 +567,24 @@ fn helper(args: &[Sexp]) -> Result<Helper, Bad> {
     match name {
         "write_header" => {
             want(5)?;
-            let (pt, padding, count) = (n(0)?, n(1)?, n(2)?);
+            let (padding, count) = (n(1)?, n(2)?);
             let (len, fill) = len_fill(3)?;
-            if !CUSTOM_PTS.contains(&pt) {
-                return Err("custom-grid");
-            }
+            // P: a bare PT is `Custom<PT, 4>`; `(custom PT MIN)` / `(custom16 PT MIN)` name the
+            // third-party type itself
+            let (fam, pt, min) = match &a[0] {
+                Sexp::Atom(_) => {
+                    let pt = n(0)?;
+                    if !CUSTOM_PTS.contains(&pt) {
+                        return Err("custom-grid");
+                    }
+                    (Fam::Custom, pt as u8, 4)
+                }
+                k => custom_kind(k).ok_or(BAD)?.map_err(|e| if e == "custom-grid" { e } else { BAD })?,
+            };
             Ok(Helper::WriteHeader {
-                pt: pt as u8,
+                fam,
+                pt,
+                min,
                 padding: padding as u8,
                 count: count as u8,
                 len,
@@ -1045,7 +1088,8 @@ pub fn builder(s: &Sexp) -> Result<B, Bad> {
             }
             Ok(B::Compound(members))
         }
-        "custom" => {
+        "custom" | "custom16" => {
+            let fam = Fam::of_head(head).ok_or("builder")?;
             if args.len() < 3 {
                 return Err("arity");
             }
@@ -1067,10 +1111,18 @@ pub fn builder(s: &Sexp) -> Result<B, Bad> {
                             _ => return Err("call"),
                         }
                     }
+                    "count" => {
+                        let n = one_num(a)?;
+                        if n > 31 {
+                            return Err("custom-count");
+                        }
+                        CustomCall::Count(n as u8)
+                    }
                     _ => return Err("call"),
                 });
             }
             Ok(B::Custom {
+                fam,
                 pt,
                 min,
                 body,
